@@ -142,7 +142,9 @@ def run(chk):
            48, 49, 51, 55, 92]
     # values whose quoted form contains what looks like an escape of the cookie quoting (\ooo octal, \", \\)
     curated = ['C:\\101\\tmp', '\\101', '\\2024', '\\072', '\\377', '"\\134"', '\\\\101', 'a\\"b', '\\0', '\\12', '\\1234;x', 'x\\134\\073y',
-               '%41', '%5C101', 'a+b', '\\u0041', '\\x41']
+               '%41', '%5C101', 'a+b', '\\u0041', '\\x41',
+               # long values that set_cookie accepts (<= 4096 characters) whatever their quoted form on the wire grows to
+               ';,"\\' * 340, '\xe9' * 1100, 'a' * 4095, 'a;' * 2000, '"' * 2100, 'x' * 4000 + ';' * 90]
     for it in range((3000 if thorough else 500) + len(curated)):
         n = rng.choice([1, 1, 2, 3, 6, 20])
         val = curated[it] if it < len(curated) else ''.join(chr(rng.choice(cps)) for _ in range(n))
